@@ -60,6 +60,7 @@ pub fn worker_main(id: &str, tier: Tier, seed: u64, shard: u32, nshards: u32, bu
     cx.only_group = only_group;
     let jpath = out.with_extension("journal");
     cx.journal = fs::OpenOptions::new().create(true).write(true).truncate(true).open(&jpath).ok();
+    cx.case_journal = Some(out.with_extension("case"));
     // a panic of the harness itself is a harness error (exit 3 => inconclusive), never a verdict
     let r = std::panic::catch_unwind(std::panic::AssertUnwindSafe(|| check.shard(&mut cx)));
     if r.is_err() {
@@ -259,11 +260,16 @@ pub fn run_main(o: &RunOpts) -> i32 {
     }
     // watchdog: generous wall limit (time is never a verdict by itself)
     let limit = o.budget * 4 + Duration::from_secs(120);
+    // progress watchdog: a worker whose journalled group has not changed for `stall` is stopped
+    // (and then re-run alone before anything is concluded)
+    let stall = Duration::from_secs(std::env::var("VERIF_STALL").ok().and_then(|v| v.parse().ok()).unwrap_or(90));
+    let mut progress: Vec<(String, Instant)> = workers.iter().map(|_| (String::new(), Instant::now())).collect();
+    let mut last_poll = Instant::now();
     let mut timed_out: Vec<u32> = Vec::new();
     loop {
         let mut running = 0;
         for w in workers.iter_mut() {
-            if w.done.is_none() {
+            if w.done.is_none() && !timed_out.contains(&w.shard) {
                 match w.child.try_wait() {
                     Ok(Some(st)) => w.done = Some(st),
                     Ok(None) => running += 1,
@@ -273,6 +279,22 @@ pub fn run_main(o: &RunOpts) -> i32 {
         }
         if running == 0 {
             break;
+        }
+        if last_poll.elapsed() > Duration::from_secs(1) {
+            last_poll = Instant::now();
+            for (i, w) in workers.iter_mut().enumerate() {
+                if w.done.is_some() || timed_out.contains(&w.shard) {
+                    continue;
+                }
+                let cur = fs::read_to_string(w.out.with_extension("journal")).unwrap_or_default();
+                if cur != progress[i].0 {
+                    progress[i] = (cur, Instant::now());
+                } else if progress[i].1.elapsed() > stall && !progress[i].0.starts_with("0 ") {
+                    let _ = w.child.kill();
+                    let _ = w.child.wait();
+                    timed_out.push(w.shard);
+                }
+            }
         }
         if t0.elapsed() > limit {
             for w in workers.iter_mut() {
@@ -290,6 +312,8 @@ pub fn run_main(o: &RunOpts) -> i32 {
     let mut merged = Stats::default();
     let mut inconclusive: Vec<String> = Vec::new();
     let mut crash_viols: Vec<Viol> = Vec::new();
+    let mut repro_done = 0;
+    let mut not_reproduced: Vec<String> = Vec::new();
     for w in workers.iter() {
         let crashed = timed_out.contains(&w.shard) || w.done.map(|s| !s.success()).unwrap_or(true);
         let harness_err = w.done.map(|s| s.code() == Some(3) || s.code() == Some(2)).unwrap_or(false);
@@ -306,39 +330,68 @@ pub fn run_main(o: &RunOpts) -> i32 {
             match read_journal(&w.out) {
                 Some((0, label)) => inconclusive.push(format!("worker {} {} in harness phase '{}'", w.shard, how, label)),
                 Some((g, label)) => {
+                    if repro_done >= 2 {
+                        not_reproduced.push(format!("worker {} {} in group {} ({}) - not re-run (two other crashed workers were)", w.shard, how, g, label));
+                        continue;
+                    }
+                    repro_done += 1;
                     let mut fails = 0;
                     let mut last = String::new();
+                    // three isolated re-runs of that group, side by side
+                    let mut kids: Vec<Child> = Vec::new();
                     for attempt in 0..3 {
                         let out = wd.join(format!("repro_{}_{}.json", w.shard, attempt));
                         let _ = fs::remove_file(&out);
-                        if let Ok(mut ch) = spawn_worker(o, w.shard, &out, Some(g), Duration::from_secs(20)) {
-                            let t = Instant::now();
-                            let mut st = None;
-                            while t.elapsed() < Duration::from_secs(60) {
-                                if let Ok(Some(s)) = ch.try_wait() {
-                                    st = Some(s);
-                                    break;
-                                }
-                                std::thread::sleep(Duration::from_millis(50));
-                            }
-                            match st {
-                                None => {
-                                    let _ = ch.kill();
-                                    let _ = ch.wait();
-                                    fails += 1;
-                                    last = "hang (no return within 60 s, 3 isolated runs)".into();
-                                }
-                                Some(s) if !s.success() => {
-                                    fails += 1;
-                                    last = describe_status(&s);
-                                }
-                                Some(_) => {}
-                            }
+                        let _ = fs::remove_file(out.with_extension("case"));
+                        if let Ok(ch) = spawn_worker(o, w.shard, &out, Some(g), Duration::from_secs(20)) {
+                            kids.push(ch);
                         }
                     }
+                    let t = Instant::now();
+                    let mut sts: Vec<Option<std::process::ExitStatus>> = kids.iter().map(|_| None).collect();
+                    while t.elapsed() < Duration::from_secs(60) && sts.iter().any(|s| s.is_none()) {
+                        for (i, ch) in kids.iter_mut().enumerate() {
+                            if sts[i].is_none() {
+                                if let Ok(Some(s)) = ch.try_wait() {
+                                    sts[i] = Some(s);
+                                }
+                            }
+                        }
+                        std::thread::sleep(Duration::from_millis(50));
+                    }
+                    for (i, ch) in kids.iter_mut().enumerate() {
+                        match sts[i] {
+                            None => {
+                                let _ = ch.kill();
+                                let _ = ch.wait();
+                                fails += 1;
+                                last = "hang (no return within 60 s, 3 isolated runs)".into();
+                            }
+                            Some(s) if !s.success() && s.code() != Some(3) && s.code() != Some(2) => {
+                                fails += 1;
+                                last = describe_status(&s);
+                            }
+                            Some(_) => {}
+                        }
+                    }
+                    if kids.len() < 3 {
+                        fails = 0;
+                    }
                     if fails == 3 {
+                        // the isolated re-runs journal every case: the last one is the witness
                         let mut case = Case::new(&o.id, "group", 0, 0, crate::sys::PK::None);
-                        case.aux = json!({"tier": o.tier.name(), "seed": o.seed, "shard": w.shard, "nshards": o.jobs, "group": g, "label": label});
+                        for attempt in 0..3 {
+                            let cj = wd.join(format!("repro_{}_{}.case", w.shard, attempt));
+                            if let Ok(txt) = fs::read_to_string(&cj) {
+                                if let Ok(c) = serde_json::from_str::<Case>(&txt) {
+                                    case = c;
+                                    break;
+                                }
+                            }
+                        }
+                        if case.kind == "group" {
+                            case.aux = json!({"tier": o.tier.name(), "seed": o.seed, "shard": w.shard, "nshards": o.jobs, "group": g, "label": label});
+                        }
                         crash_viols.push(Viol {
                             prop: o.id.clone(),
                             clause: if last.starts_with("hang") { "hang".into() } else { "abort".into() },
@@ -363,6 +416,9 @@ pub fn run_main(o: &RunOpts) -> i32 {
         } else if !crashed {
             inconclusive.push(format!("worker {} wrote no result", w.shard));
         }
+    }
+    if crash_viols.is_empty() {
+        inconclusive.extend(not_reproduced);
     }
     for v in crash_viols {
         merged.violation(v);
@@ -562,6 +618,26 @@ pub fn replay_main(path: &Path) -> i32 {
     if viol.case.kind == "group" {
         println!("this is a process-level finding (abort/hang); re-run with:\n  mtverif worker {} --tier {} --seed {} --shard {} --nshards {} --only-group {} --out /tmp/x.json",
             viol.case.check, viol.case.aux["tier"].as_str().unwrap_or("quick"), viol.case.aux["seed"], viol.case.aux["shard"], viol.case.aux["nshards"], viol.case.aux["group"]);
+        return 1;
+    }
+    if (viol.clause == "hang" || viol.clause == "abort") && std::env::var("VERIF_REPLAY_CHILD").is_err() {
+        // re-execute in a child process under a time limit: the case may kill or stall it
+        let exe = std::env::current_exe().unwrap();
+        let mut ch = match Command::new(exe).arg("replay").arg(path).env("VERIF_REPLAY_CHILD", "1").stdout(Stdio::null()).spawn() {
+            Ok(c) => c,
+            Err(_) => return 2,
+        };
+        let t = Instant::now();
+        while t.elapsed() < Duration::from_secs(30) {
+            if let Ok(Some(st)) = ch.try_wait() {
+                println!("child finished: {}", describe_status(&st));
+                return if st.success() { 0 } else { 1 };
+            }
+            std::thread::sleep(Duration::from_millis(50));
+        }
+        let _ = ch.kill();
+        let _ = ch.wait();
+        println!("REPRODUCED {}: the case did not return within 30 s", viol.sig());
         return 1;
     }
     let mut cx = Ctx::new(Tier::Quick, 1, 0, 1, Duration::from_secs(60));
